@@ -41,7 +41,8 @@ func inconclusive(u *harness.Unit, f *harness.Failure) bool {
 // the case itself computes afterwards; whatever such an event leaves behind - a builder
 // handed back dirty, a failed load remembered, a counter not given back - shows as a
 // wrong answer of the differential check that follows.
-var noiseCompile = []string{"a[", "'abc", "p:q(", "a/(b", "count(", "f(x)", "a b", "//", "1 +", "matches('a', '(')"}
+var noiseCompile = []string{"a[", "'abc", "p:q(", "a/(b", "count(", "f(x)", "a b", "//", "1 +", "matches('a', '(')",
+	strings.Repeat("(", 250), strings.Repeat("a[", 120), strings.Repeat("not(", 60) + "$v", "a/" + strings.Repeat("(", 210) + "b" + strings.Repeat(")", 210)}
 var noiseEvaluate = []string{
 	"concat('k', 'l', sum('x'))", "normalize-space(concat('q', sum('y')))", "string-join(//a, contains(1, 1))",
 	"translate('abc', 'a', sum('z'))", "matches('a', concat('(', ''))", "replace('a', concat('[', ''), 'r')",
